@@ -82,8 +82,11 @@ func (a *API) SearchPromises(id string, state string, tags map[string]string, li
 		}
 
 		// the cursor is signed with a well known key, validate what it carries like a fresh request
-		if cursor.Next == nil || cursor.Next.Id == "" || cursor.Next.Limit < 1 || cursor.Next.Limit > 100 {
+		if cursor.Next == nil || cursor.Next.Id == "" || len(cursor.Next.States) == 0 || cursor.Next.Limit < 1 || cursor.Next.Limit > 100 {
 			return nil, RequestValidationError(errors.New("The field cursor is invalid."))
+		}
+		if cursor.Next.Tags == nil {
+			cursor.Next.Tags = map[string]string{}
 		}
 
 		return cursor.Next, nil
@@ -156,6 +159,9 @@ func (a *API) SearchSchedules(id string, tags map[string]string, limit int, curs
 		// the cursor is signed with a well known key, validate what it carries like a fresh request
 		if cursor.Next == nil || cursor.Next.Id == "" || cursor.Next.Limit < 1 || cursor.Next.Limit > 100 {
 			return nil, RequestValidationError(errors.New("The field cursor is invalid."))
+		}
+		if cursor.Next.Tags == nil {
+			cursor.Next.Tags = map[string]string{}
 		}
 
 		return cursor.Next, nil
